@@ -1,4 +1,4 @@
-import Pcore.Proofs.LatTransG
+import Pcore.Proofs.LatTransIter
 set_option linter.unusedSimpArgs false
 set_option linter.unusedVariables false
 /-! C03: transitivity on `Ty.TG sfh` (stage 3), the receiver rules. -/
@@ -28,7 +28,7 @@ theorem trG_recv (hl : ∀ s, (cfg.lower s).length = s.length) (n : Nat) (ih : T
   | richData => have := H.fa; unfold Ty.TG at this; exact absurd this id
   | tuple ts g => exact recv_to_asg cfg sfh _ c hc (trG_tuple cfg sfh n ih ts g b c hw H h1 h2')
   | struct ms => exact recv_to_asg cfg sfh _ c hc (trG_struct cfg sfh n ih ms b c hw H h1 h2')
-  | iterable _ => have := H.fa; unfold Ty.TG at this; exact absurd this id
+  | iterable x => exact recv_to_asg cfg sfh _ c hc (trG_iterable cfg sfh n ih x b c hw H h1 h2')
   | scalar => exact trG_scalar cfg sfh n ih b c hw H hc h1 h2
   | scalarData => exact trG_scalarData cfg sfh n ih b c hw H hc h1 h2
   | coll r => exact recv_to_asg cfg sfh _ c hc (trG_coll cfg sfh r b c H.fb H.fc h1 h2')
@@ -93,7 +93,6 @@ theorem recvNUG_cases (a nb : Ty) (fa : a.TG sfh) (hnb : asg cfg sfh nb .undef =
   | unit => unfold Ty.TG at fa; exact absurd fa id
   | data => unfold Ty.TG at fa; exact absurd fa id
   | richData => unfold Ty.TG at fa; exact absurd fa id
-  | iterable _ => unfold Ty.TG at fa; exact absurd fa id
   | variant as =>
     right; left
     unfold asgRecv at h; rw [asgAnyL_iff] at h
@@ -151,8 +150,7 @@ theorem acceptsG_any : ∀ (n : Nat) (a : Ty), a.w ≤ n → a.TG sfh → asg cf
       | unit => unfold Ty.TG at fa; exact absurd fa id
       | data => unfold Ty.TG at fa; exact absurd fa id
       | richData => unfold Ty.TG at fa; exact absurd fa id
-              | iterable _ => unfold Ty.TG at fa; exact absurd fa id
-      | variant as =>
+                  | variant as =>
         unfold Ty.TG at fa; simp only [Ty.w] at hw
         unfold asgRecv at h; rw [asgAnyL_iff] at h
         obtain ⟨m, hm, h⟩ := h
